@@ -38,7 +38,77 @@ def gen_PathPad():
     write("PathPad", body, "magpylib/_src/obj_classes/class_BaseTransform.py:path_padding_param")
 
 
-GENERATORS = {"PathPad": gen_PathPad}
+def gen_Exits():
+    """control-flow skeleton of getBH_level2: is everything between the in-place path tiling and the
+    reset protected by a try/finally whose finally-block restores _position/_orientation?"""
+    import ast
+    import inspect
+    import textwrap
+
+    from magpylib._src.fields import field_wrap_BH
+
+    src = textwrap.dedent(inspect.getsource(field_wrap_BH.getBH_level2))
+    fn = ast.parse(src).body[0]
+
+    def assigns_path(node):
+        """does this statement (sub)tree assign obj._position / obj._orientation?"""
+        for n in ast.walk(node):
+            if isinstance(n, ast.Assign):
+                for t in n.targets:
+                    if isinstance(t, ast.Attribute) and t.attr in ("_position", "_orientation"):
+                        return True
+        return False
+
+    def uses_slice_restore(node):
+        for n in ast.walk(node):
+            if isinstance(n, ast.Assign) and isinstance(n.value, ast.Subscript):
+                for t in n.targets:
+                    if isinstance(t, ast.Attribute) and t.attr in ("_position", "_orientation"):
+                        v = n.value.value
+                        if isinstance(v, ast.Attribute) and v.attr == t.attr:
+                            return True
+        return False
+
+    body = fn.body
+    tile_idx = [i for i, st in enumerate(body) if assigns_path(st) and not isinstance(st, ast.Try)]
+    if not tile_idx:
+        raise Refusal("no statement tiling _position/_orientation found in getBH_level2")
+    first_tile = tile_idx[0]
+    # statements after the tiling statement
+    after = body[first_tile + 1:]
+    in_finally = False
+    unprotected = 0
+    slice_restore = False
+    restore_seen = False
+    for st in after:
+        if isinstance(st, ast.Try) and st.finalbody and any(assigns_path(x) for x in st.finalbody):
+            in_finally = True
+            restore_seen = True
+            slice_restore = any(uses_slice_restore(x) for x in st.finalbody)
+            break
+        if assigns_path(st):  # plain reset statement: everything before it was unprotected
+            restore_seen = True
+            slice_restore = uses_slice_restore(st)
+            break
+        # a statement that can raise: contains a Raise or any Call
+        if any(isinstance(n, (ast.Raise, ast.Call)) for n in ast.walk(st)):
+            unprotected += 1
+    if not restore_seen:
+        raise Refusal("no statement restoring _position/_orientation found after the tiling block")
+    body_txt = (
+        "namespace MagpyVerif.Gen.Exits\n\n"
+        "/-- the restore of the tiled paths sits in the `finally` of a try that starts right after the tiling -/\n"
+        f"def resetInFinally : Bool := {'true' if in_finally else 'false'}\n\n"
+        "/-- statements containing a call or a raise between the tiling and an unprotected restore -/\n"
+        f"def unprotectedSitesAfterTiling : Nat := {unprotected}\n\n"
+        "/-- the restore slices the tiled path (`obj._position[:m0]`) instead of putting the saved arrays back -/\n"
+        f"def restoreBySlicing : Bool := {'true' if slice_restore else 'false'}\n\n"
+        "end MagpyVerif.Gen.Exits\n"
+    )
+    write("Exits", body_txt, "magpylib/_src/fields/field_wrap_BH.py:getBH_level2 (AST)")
+
+
+GENERATORS = {"PathPad": gen_PathPad, "Exits": gen_Exits}
 
 
 def main():
